@@ -320,8 +320,8 @@ class tree:
             return self._fast_identify_candidates(restrict, sorter)
         dsolutions = [
             (
-                [c.restriction for c in collect_package_restrictions(x, ("category",))],
-                [p.restriction for p in collect_package_restrictions(x, ("package",))],
+                self._collect_candidate_restrictions(x, "category"),
+                self._collect_candidate_restrictions(x, "package"),
             )
             for x in restrict.iter_dnf_solutions(True)
         ]
@@ -371,25 +371,48 @@ class tree:
             cats_iter = (c for c in sorter(self.categories) if cr.match(c))
             return ((c, p) for c in cats_iter for p in sorter(pgetter(c, [])))
 
-        return self._fast_identify_candidates(restrict, sorter)
+        return self._fast_identify_candidates(restrict, sorter, dsolutions)
 
-    def _fast_identify_candidates(self, restrict, sorter):
+    @staticmethod
+    def _collect_candidate_restrictions(solution, attr):
+        """Pull the value restrictions of a DNF solution that limit the candidates for attr.
+
+        Only a non negated PackageRestriction does; negated ones, Negate wrappers and
+        boolean nodes left alone by the DNF expansion (exactly-one-of, at-most-one-of,
+        which match when their children don't) must not be used to prune candidates.
+        """
+        return [
+            x.restriction
+            for x in collect_package_restrictions(
+                [x for x in solution if not isinstance(x, boolean.base)], (attr,)
+            )
+            if not x.negate
+        ]
+
+    def _fast_identify_candidates(self, restrict, sorter, dsolutions=None):
         pkg_restrict = set()
         cat_restrict = set()
         cat_exact = set()
         pkg_exact = set()
 
-        for x in collect_package_restrictions(
-            restrict,
-            (
-                "category",
-                "package",
-            ),
-        ):
-            if x.attr == "category":
-                cat_restrict.add(x.restriction)
-            elif x.attr == "package":
-                pkg_restrict.add(x.restriction)
+        if dsolutions is not None:
+            # boolean restriction; its DNF solutions were already reduced to the
+            # restrictions that are usable for candidate selection.
+            for cats, pkgs in dsolutions:
+                cat_restrict.update(cats)
+                pkg_restrict.update(pkgs)
+        else:
+            for x in collect_package_restrictions(
+                restrict,
+                (
+                    "category",
+                    "package",
+                ),
+            ):
+                if x.attr == "category":
+                    cat_restrict.add(x.restriction)
+                elif x.attr == "package":
+                    pkg_restrict.add(x.restriction)
 
         for e, s in ((pkg_exact, pkg_restrict), (cat_exact, cat_restrict)):
             l = [x for x in s if isinstance(x, values.StrExactMatch) and not x.negate]
@@ -397,7 +420,10 @@ class tree:
             e.update(x.exact for x in l)
         del l
 
-        if restrict.negate:
+        # only a lone PackageRestriction can be negated here; negated boolean
+        # restrictions have no DNF solution that limits the candidates.
+        negate = dsolutions is None and getattr(restrict, "negate", False)
+        if negate:
             cat_exact = pkg_exact = ()
 
         if cat_exact:
@@ -414,7 +440,7 @@ class tree:
                 cat_restrict.add(values.ContainmentMatch(frozenset(cat_exact)))
                 cats_iter = sorter(self._cat_filter(cat_restrict))
         elif cat_restrict:
-            cats_iter = self._cat_filter(cat_restrict, negate=restrict.negate)
+            cats_iter = self._cat_filter(cat_restrict, negate=negate)
         else:
             cats_iter = sorter(self.categories)
 
@@ -429,7 +455,7 @@ class tree:
                 pkg_restrict.add(values.ContainmentMatch(frozenset(pkg_exact)))
 
         if pkg_restrict:
-            return self._package_filter(cats_iter, pkg_restrict, negate=restrict.negate)
+            return self._package_filter(cats_iter, pkg_restrict, negate=negate)
         elif not cat_restrict:
             if sorter is iter and not cat_exact:
                 return self.versions
